@@ -1267,6 +1267,9 @@ func (c *Ctx) ruleStatefulInBuild() {
 					}
 				}
 			}
+			if c.onlyOnceDoArg(f) {
+				return true // a method that is only ever handed to Once.Do as a method value: the same memo
+			}
 			// the state is that of a regex schema: the call matters only where a receiver or argument can be one
 			carries := false
 			operands := append([]ast.Expr{}, call.Args...)
